@@ -23,14 +23,15 @@ ASSUMED = {
 }
 
 
-def _extra(args, kwargs):
-    extra = kwargs.get("args", ())
+def _extra(args, kwargs, pos=None):
+    """extra arguments for the callback: keyword ``args`` or the positional slot ``pos`` of the scipy signature"""
+    extra = kwargs.get("args", args[pos] if pos is not None and len(args) > pos and isinstance(args[pos], (tuple, list)) else ())
     return list(extra) if isinstance(extra, (tuple, list)) else [extra]
 
 
 def root_scalar(it, args, kwargs):
     f = args[0]
-    extra = _extra(args, kwargs)
+    extra = _extra(args, kwargs, pos=1)
     bracket = kwargs.get("bracket")
     method = kwargs.get("method")
     site = it.callstack[-1] if it.callstack else ""
